@@ -29,6 +29,7 @@ THEOREMS = [
     "Canopen.C14.export_import_partial",
     "Canopen.C14.export_returns",
     "Canopen.C14.export_import",
+    "Canopen.C14.export_import_history",
 ]
 FINGERPRINT = [
     "canopen.objectdictionary.eds:export_eds",
@@ -62,9 +63,13 @@ ASSUMPTIONS = [
     "the model)",
     "the same node id is in force for the re-import as for the original dictionary",
 ]
-RULE = ("ops: rt <eds|dcf> <destination f|s|o> <node id> <dictionary as a sequence of API calls> (ODVariable/"
+RULE = ("ops: hist <k> {<eds|dcf> <f|s|o> <file stem> <node id> <dictionary>}*k (several export/import rounds within "
+        "one process: `f` rounds export to <stem>.<eds|dcf> - the same names again and again with other "
+        "dictionaries - and import that path, `s`/`o` rounds go through a text stream / standard output), "
+        "rt <eds|dcf> <destination f|s|o> <node id> <dictionary as a sequence of API calls> (ODVariable/"
         "ODRecord/ODArray built in code: all data types, signed/unsigned defaults and limits at the range ends, "
-        "relative flag, records/arrays of 1..20 members, names with blanks, '%', '=', device info, comments), "
+        "relative flag, records/arrays of 1..20 members, names with blanks, '%', '=', device info, comment "
+        "blocks of 1..30 lines), "
         "rti … (a dictionary obtained by importing a text of C08's writer, then exported), rev <type> <value> "
         "(_revert_variable then _convert_variable); every rt/rti exports to a file name, a text stream and "
         "stdout and compares the three texts; non-trivial = export and re-import both returned")
@@ -340,8 +345,65 @@ def round_trip(od, doctype, dest, nid, history=False):
     return f"ok X={1 if same else 0} {head} D={doc} R=({r})"
 
 
+def hist_steps(a):
+    k = int(a[1])
+    if k < 1 or len(a) != 2 + 5 * k:
+        return None
+    return [a[2 + 5 * i:7 + 5 * i] for i in range(k)]
+
+
+def run_history(a):
+    """hist: several export/import rounds within this process; an `f` round exports to <stem>.<eds|dcf> in a
+    directory of this operation's own (the document type comes from the suffix) and imports that path again, an
+    `s` round goes through a text stream, an `o` round through standard output"""
+    steps = hist_steps(a)
+    if steps is None:
+        return "bad-op"
+    work = os.path.join(os.path.dirname(os.path.dirname(os.path.dirname(os.path.abspath(__file__)))), ".work")
+    os.makedirs(work, exist_ok=True)
+    outs = []
+    with tempfile.TemporaryDirectory(dir=work, prefix="c14h") as d:
+        for doctype, dest, stem, nid, enc in steps:
+            od = build_od(enc)
+            nid = od.node_id if nid == "none" else int(nid)
+            head = "O=(" + no_fileinfo(E.show_od(od)) + ")"
+            path = os.path.join(d, E.unhx(stem) + "." + doctype)
+            if os.path.dirname(path) != d:
+                return "HARNESS a history step names a file outside the operation's directory"
+            try:
+                if dest == "f":
+                    canopen.export_od(od, path)
+                    with open(path) as f:
+                        text = f.read()
+                elif dest == "s":
+                    buf = io.StringIO()
+                    canopen.export_od(od, buf, doc_type=doctype)
+                    text = buf.getvalue()
+                else:
+                    buf = io.StringIO()
+                    with contextlib.redirect_stdout(buf):
+                        canopen.export_od(od, None, doc_type=doctype)
+                    text = buf.getvalue()
+            except Exception:
+                outs.append(head + " export-err")
+                continue
+            try:
+                doc = E.enc_doc(canon_doc(E.parse_text(text)))
+            except Exception:
+                doc = "unparsable"
+            try:
+                od2 = canopen.import_od(path, nid) if dest == "f" else E.import_text(text, "x." + doctype, nid)
+                r = no_fileinfo(E.show_od(od2))
+            except Exception:
+                r = "err"
+            outs.append(f"{head} D={doc} R=({r})")
+    return "ok " + " # ".join(outs)
+
+
 def run_impl(op):
     a = op.split(" ")
+    if a[0] == "hist":
+        return run_history(a)
     if a[0] == "rt":
         nid = None if a[3] == "none" else int(a[3])
         return round_trip(build_od(a[4]), a[1], a[2], nid, history=True)
@@ -374,8 +436,8 @@ def run_impl(op):
     return "bad-op"
 
 
-def canon_model(op, out):
-    out = no_fileinfo(E.canon_model_floats(out))
+def canon_round(out):
+    """one `… O=(…) D=<doc> R=(…)` answer of the model, its document canonicalised like the harness's"""
     i = out.find(") D=") + 1
     if i > 0:
         j = out.find(" R=(", i)
@@ -385,6 +447,13 @@ def canon_model(op, out):
         except Exception:
             pass
     return out
+
+
+def canon_model(op, out):
+    out = no_fileinfo(E.canon_model_floats(out))
+    if op.startswith("hist ") and out.startswith("ok "):
+        return "ok " + " # ".join(canon_round(x) for x in out[3:].split(" # "))
+    return canon_round(out)
 
 
 # ---- oracle: the property on the implementation's answer -------------------------------------------------------
@@ -415,12 +484,33 @@ def oracle(op, out):
             if not out.endswith(f" i{v}"):
                 return f"default {v} of an integer type is exported/re-imported as {out!r}"
         return None
+    if a[0] == "hist":
+        steps = hist_steps(a)
+        if steps is None or not out.startswith("ok "):
+            return None if out == "bad-op" else f"history: {out}"
+        outs = out[3:].split(" # ")
+        if len(outs) != len(steps):
+            return f"history of {len(steps)} rounds gave {len(outs)} answers"
+        for i, (st, o) in enumerate(zip(steps, outs)):
+            _, od_dump, d, r = split_out("ok X=1 " + o)
+            w = compare_round(od_dump, d, r, st[0] == "dcf")
+            if w:
+                earlier = [j + 1 for j in range(i) if steps[j][1] == "f" and steps[j][:3:2] == st[:3:2]]
+                dest = {"f": f"file {E.unhx(st[2])}.{st[0]}", "s": "text stream", "o": "standard output"}[st[1]]
+                return (f"history round {i + 1} of {len(steps)} ({dest}"
+                        + (f", written before in round {earlier}" if earlier and st[1] == "f" else "") + f"): {w}")
+        return None
     if a[0] not in ("rt", "rti") or not out.startswith("ok X="):
         return None
     dcf = a[1] == "dcf"
     x, o, d, r = split_out(out)
     if x != "1":
         return "the exported document depends on the destination (file name / stream / stdout)"
+    return compare_round(o, d, r, dcf)
+
+
+def compare_round(o, d, r, dcf):
+    """one export/import round: the dump of the exported dictionary, the document, the dump of the re-imported one"""
     if d is None:
         return "export raised an exception"
     if r == "err":
@@ -485,12 +575,12 @@ def signature(op, what):
                      ("sub-indices", "subindices"), (": def ", "default"), (": min ", "limit"),
                      (": max ", "limit"), (": val ", "value"), ("exported/re-imported", "default")):
         if key in what:
-            return f"{a[0] if a[0] == 'rev' else 'rt'}:{cls}"
-    return "rt:field"
+            return f"{a[0] if a[0] in ('rev', 'hist') else 'rt'}:{cls}"
+    return "hist:field" if a[0] == "hist" else "rt:field"
 
 
 def nontrivial(op, out):
-    return out.startswith("ok") and "export-err" not in out and not out.endswith("R=(err)")
+    return out.startswith("ok") and "export-err" not in out and "R=(err)" not in out
 
 
 def classify(op, out):
@@ -498,15 +588,39 @@ def classify(op, out):
     if a[0] in ("rt", "rti"):
         st = "ok" if nontrivial(op, out) else ("import-err" if out == "import-err" else "fail")
         return f"{a[0]}:{a[1]}:{a[2]}:{st}"
+    if a[0] == "hist":
+        dests = "".join(a[3 + 5 * i] for i in range(int(a[1]))) if a[1].isdigit() and len(a) == 2 + 5 * int(a[1]) else "?"
+        return f"hist:{dests}:{'ok' if nontrivial(op, out) else 'fail'}"
     return f"{a[0]}:{'ok' if out.startswith('ok') else 'err'}"
 
 
 # ---- shrinking ---------------------------------------------------------------------------------------------
 def shrink_candidates(op):
     a = op.split(" ")
+    if a[0] == "hist":
+        steps = hist_steps(a)
+        if steps is None:
+            return
+        k = len(steps)
+        for i in range(k):                       # drop a round
+            if k > 1:
+                rest = steps[:i] + steps[i + 1:]
+                yield " ".join(["hist", str(k - 1)] + [t for st in rest for t in st])
+        for i, st in enumerate(steps):           # a smaller dictionary in one round
+            for cand in shrink_candidates(" ".join(["rt", st[0], st[1], st[3], st[4]])):
+                new = st[:4] + [cand.split(" ")[4]]
+                yield " ".join(["hist", str(k)] + [t for x in steps[:i] + [new] + steps[i + 1:] for t in x])
+        return
     if a[0] != "rt" or a[4] == "-":
         return
     items = a[4].split(";")
+    # fewer comment lines
+    for i, it in enumerate(items):
+        if it.startswith("c,"):
+            lines = E.unhx(it[2:]).split("\n")
+            for keep in (lines[:len(lines) // 2], lines[:-1], lines[1:]):
+                if keep and keep[-1]:
+                    yield " ".join(a[:4] + [";".join(items[:i] + ["c," + E.hx("\n".join(keep))] + items[i + 1:])])
     # drop one construction command (a record/array start together with its members)
     for i, it in enumerate(items):
         if it[0] in "RA":
@@ -585,7 +699,9 @@ def rand_od14(rng, size=None, types=None):
     if rng.random() < 0.6:
         spec["bitrate"] = rng.choice(E.RATES) * 1000
     if rng.random() < 0.6:
-        lines = [E.rand_text(rng, 0, 25) for _ in range(rng.choice([1, 2, 3, 5]))]
+        # up to 30 lines (Line10.. sort before Line2 as texts)
+        n = rng.choice([1, 2, 3, 5, 9, 10, 11, 12, 20, 30]) if rng.random() < 0.8 else rng.randint(1, 30)
+        lines = [E.rand_text(rng, 0, 25) for _ in range(n)]
         lines[-1] = lines[-1] or "last"          # a trailing line break is not a line
         spec["comments"] = "\n".join(lines)
     spec["bauds"] = [r * 1000 for r in E.RATES if rng.random() < 0.4]
@@ -635,6 +751,44 @@ def rand_od14(rng, size=None, types=None):
     return spec
 
 
+def history_op(steps):
+    """steps: (doctype, dest, file stem, dictionary description)"""
+    toks = []
+    for doctype, dest, stem, sp in steps:
+        nid = sp.get("nodeid")
+        toks += [doctype, dest, E.hx(stem), "none" if nid is None else str(nid), enc_od(sp)]
+    return "hist " + " ".join([str(len(steps))] + toks)
+
+
+def rand_history14(rng):
+    """2..4 rounds; the first two are exports of different dictionaries to the same file name"""
+    k = rng.choice([2, 2, 3, 4])
+    stems = rng.sample(["device", "out", "my node", "a.b"], 2)
+    doctype = rng.choice(["eds", "dcf"])
+    steps = []
+    for i in range(k):
+        sp = rand_od14(rng, size=rng.choice([0, 1, 2, 3]))
+        if i < 2:
+            steps.append((doctype, "f", stems[0], sp))
+        else:
+            steps.append((rng.choice([doctype, "eds", "dcf"]), rng.choice("ffso"), rng.choice(stems), sp))
+    if k > 2 and rng.random() < 0.5:
+        steps.insert(1, steps.pop())              # something else between the two exports to the same name
+    return history_op(steps)
+
+
+def fixed_od14(default, value, nodeid, extra, ncomments):
+    objs = [{"kind": "var", "var": {"name": "Device type", "index": 0x1000, "sub": 0, "dt": E.T_U32, "acc": "ro",
+                                    "def": ("i", 0x191)}},
+            {"kind": "var", "var": {"name": "Set point", "index": 0x2000, "sub": 0, "dt": E.T_I16, "acc": "rw",
+                                    "def": ("i", default), "val": ("i", value)}}]
+    if extra:
+        objs.append({"kind": "var", "var": {"name": "Added later", "index": 0x2001, "sub": 0, "dt": E.T_U16,
+                                            "acc": "ro", "def": ("i", 77), "val": ("i", 78)}})
+    return {"nodeid": nodeid, "bitrate": 500000, "bauds": [], "dev": [], "objs": objs,
+            "comments": "\n".join(f"comment line {i + 1} of {ncomments}" for i in range(ncomments))}
+
+
 def gen_ops(tier, rng):
     quick = tier == "quick"
     # _revert_variable / _convert_variable on integers at the range ends -----------------------------------------
@@ -669,6 +823,9 @@ def gen_ops(tier, rng):
             dest = "fso"[k % 3]
             k += 1
             yield f"rt {doctype} {dest} {'none' if nid is None else nid} {enc}"
+    # histories: several rounds within this process, on the same file names and through streams ---------------------
+    for _ in range(60 if quick else 500):
+        yield rand_history14(rng)
     # dictionaries obtained by import ---------------------------------------------------------------------------
     for _ in range(400 if quick else 2500):
         sp = E.rand_spec(rng)
@@ -697,6 +854,17 @@ CORPUS = [
     "rev 3 i-5",         # F4: INTEGER16 default -5 was exported as 0x-5
     "rev 21 i-9223372036854775808",
     "rev 2 i-128",
+    # comment blocks of 9, 10, 12 and 30 lines
+    *[f"rt {dt} {dest} 9 {enc_od(fixed_od14(-5, 100, 9, False, n))}"
+      for n, dt, dest in ((9, "eds", "s"), (10, "eds", "f"), (12, "dcf", "o"), (30, "dcf", "f"))],
+    # a configuration file that is rewritten and re-read; a stream round in between
+    history_op([("dcf", "f", "device", fixed_od14(-5, 100, 3, False, 1)),
+                ("dcf", "f", "device", fixed_od14(1234, -100, 4, True, 2)),
+                ("dcf", "s", "device", fixed_od14(7, 8, 6, False, 11)),
+                ("dcf", "f", "device", fixed_od14(0, 0, 5, False, 3))]),
+    history_op([("eds", "f", "device", fixed_od14(-5, 100, 3, False, 1)),
+                ("dcf", "f", "device", fixed_od14(6, 7, 8, False, 1)),
+                ("eds", "f", "device", fixed_od14(1234, -100, 4, True, 12))]),
 ]
 
 LEVEL_TEXT = ("Lean 4 theorems over the exported document, for every dictionary of the property's domain, both document "
@@ -707,7 +875,9 @@ LEVEL_TEXT = ("Lean 4 theorems over the exported document, for every dictionary 
               "sub-indices, data type, access type, PDO mapping, default, limits of every signed width, storage "
               "location, factor, unit, description; parameter values for DCF) plus the dummy entries; bit rate, node id, "
               "comments, device attributes and allowed bit rates are read back; the export returns (no two sections of "
-              "the same name); whole-dictionary export_import; model tied to the code by generated tables and a "
+              "the same name); whole-dictionary export_import; export_import_history (several rounds on the same "
+              "file names, other names and streams: every round returns its own dictionary); model tied to the code "
+              "by generated tables and a "
               "differential run comparing the exported document and the re-imported dictionary")
 LEVEL_NOTE = ("trusted: Lean kernel + propext/Classical.choice/Quot.sound; configparser writing/reading, float printing, the "
               "three destinations and [FileInfo] are outside the model (differential only); the correspondence is only as "
